@@ -35,6 +35,9 @@ CLAIMED = {
  "C15": ("Coq theorem on Model/Crash.v: for every page size, every snapshot sequence and every directory state visited while the (k+1)-th snapshot is being recorded (after each completed file operation of the repaired collect/write_main_log), load_log reads a prefix of the recorded snapshots of length k or k+1. Exhaustive fault injection on the real code: every file operation (open w/a/x, os.replace) after initialisation is crashed before it, after the open but before any write, and after it; the directory is loaded and read back, compared with the model's load per operation; real trajectories crashed mid-run are restarted from the loaded log and continued.",
          "trusts: Coq kernel/vm_compute (no axioms); crash = exception at a file operation (no torn write inside one write call); os.replace atomic",
          "Coq proof (prefix invariant over all visited disk states) + exhaustive crash-point injection", "DESIGN.md §3 C15"),
+ "C10": ("Coq theorems on Model/SpawnStack.v: for any spawn stack (any depth, sizes, spawn_size), any crossing history (several thresholds crossed in one step, exhausted stacks) and any recursion fuel, the final weights of a trajectory and all its descendants are non-negative and sum to the initial weight; in general a trajectory at index iz plus everything it still spawns carries base*(1 - sum of dw crossed) = the parent's marginal weight, children carrying base*dw*ratio/spawn_size; a quadrature-built stack has flattened weights = product of the per-level weight sums. Correspondence: real BatchedTraj(EvenSamplingTrajectory) trees (all rules, depths 1-3, mcsamples, explicit trees, large dt) whose crossing histories are observed and replayed through the model; next_zeta index/marginal bookkeeping; parent unchanged, child start point, trace-clone independence, box rule per trajectory. Partial: aliasing facts (parent untouched, no shared arrays) are run-time observations.",
+         "trusts: Coq kernel/vm_compute; real-number axioms; class-level wrappers observing hopper/clone/hop_to_it; 2^-44 tolerance",
+         "Coq proof (induction on recursion fuel over nested histories) on hand-written model + correspondence", "DESIGN.md §3 C10"),
 }
 NOT_YET = "check not built yet in this commit (work in progress; see DESIGN.md §3 for the planned proof)"
 
